@@ -1,4 +1,5 @@
 import J5V.Rules.ProofsC12
+import J5V.Rules.ProofsMatcher
 /-!
 # C12 — compiled validation constraints accept exactly what the j5s rules allow
 
@@ -224,6 +225,12 @@ theorem C12_unique_message_counterexample :
       pvField ⟨fun _ _ => false⟩ [] c false (.list [.msg]) = .error ∧
       j5Accepts ⟨fun _ _ => false⟩ p (.list [.msg]) = true := by
   refine ⟨_, rfl, ?_, ?_⟩ <;> decide
+
+/-! ## the matcher used by the correspondence runs satisfies the hypothesis -/
+
+/-- `Wire.smallMatcher`, which the driver evaluates against protovalidate's RE2, implements the
+published id62 pattern exactly; so the C12 theorems apply to the very model the correspondence tests. -/
+theorem C12_driver_matcher_ok : MatcherOK Wire.smallMatcher := Wire.smallMatcher_id62
 
 /-! ## non-vacuity: the hypotheses are satisfiable by non-trivial declarations and values -/
 
